@@ -14,9 +14,13 @@ mod sync;
 mod undo;
 mod util;
 mod weak;
+mod wire;
 mod world;
 
 use util::Args;
+
+#[global_allocator]
+static ALLOC: wire::Counting = wire::Counting;
 
 fn main() {
     let args = Args::parse();
@@ -29,6 +33,8 @@ fn main() {
         "undo" => undo::cmd_undo(&args),
         "idset" => idset::cmd_idset(&args),
         "sync" => sync::cmd_sync(&args),
+        "fuzz" => wire::cmd_fuzz(&args),
+        "roundtrip" => wire::cmd_roundtrip(&args),
         _ => {
             eprintln!("usage: ymon sim|replay ...");
             2
